@@ -1,22 +1,29 @@
 import RzmqModel.Driver.Wire
+import RzmqModel.Driver.Engine
 open Rzmq.Driver
 
-partial def loop (comp : String) (h : IO.FS.Stream) (out : IO.FS.Stream) : IO Unit := do
+structure DState where
+  eng : Engine.St := {}
+
+def dispatch (comp : String) (st : DState) (parts : List String) : DState × String :=
+  match comp with
+  | "wire" => (st, Wire.runOp parts)
+  | "engine" => let r := Engine.runOp st.eng parts; ({ st with eng := r.1 }, r.2)
+  | _ => (st, "bad-component")
+
+partial def loop (comp : String) (h : IO.FS.Stream) (out : IO.FS.Stream) (st : DState) : IO Unit := do
   let line ← h.getLine
   if line.isEmpty then return ()
   let l := line.trimAscii.toString
   if l.isEmpty || l.startsWith "#" then
-    loop comp h out
+    loop comp h out st
   else
-    let parts := l.splitOn " "
-    let res := match comp with
-      | "wire" => Wire.runOp parts
-      | _ => "bad-component"
+    let (st', res) := dispatch comp st (l.splitOn " ")
     out.putStrLn res
-    loop comp h out
+    loop comp h out st'
 
 def main (args : List String) : IO Unit := do
   let comp := args.headD "wire"
   let stdout ← IO.getStdout
-  loop comp (← IO.getStdin) stdout
+  loop comp (← IO.getStdin) stdout {}
   stdout.flush
